@@ -393,6 +393,7 @@ type plotCase struct {
 	Format    string `json:"format,omitempty"`
 	Files     int    `json:"files,omitempty"`
 	Title     string `json:"title,omitempty"`
+	Probe     string `json:"probe,omitempty"` // regression probe: part of the violation kind
 }
 
 func (x res) result() *vegeta.Result {
@@ -509,7 +510,9 @@ func implPlot(pc plotCase, wantData bool) plotOut {
 }
 
 // tszFirstLimit: github.com/tsenart/go-tsz stores the first time stamp of a series in 27 bits
-// (and reads 2^27-1 as the end marker).
+// relative to the series' T0 (and reads 2^27-1 as the end marker).  Since timeSeries.add creates
+// the store at the series' first point this no longer limits the plot; the value is kept for the
+// two regression probes and for classifying their violations.
 const tszFirstLimit = 1<<27 - 1 // ms
 
 type expPoint struct {
@@ -569,6 +572,8 @@ func oraclePlot(s *kit.Summary, pc plotCase, o plotOut, where string) {
 	pre := "plot_"
 	if late >= tszFirstLimit {
 		pre = "plot_late_series_" // a series begins ≥ 2^27-1 ms after the attack's first request
+	} else if pc.Probe != "" {
+		pre = "plot_" + pc.Probe + "_"
 	}
 	viol := func(kind, what, e, ob string) {
 		s.Violate(kit.Violation{Kind: pre + kind, What: where + ": " + what, Input: pc, Expected: clip(e, 600), Observed: clip(ob, 600), Key: key})
@@ -1096,8 +1101,10 @@ func plotStreams(c *run.Ctx, s *kit.Summary, r *kit.Rng) {
 	}
 	ad.Diff(c.Driver, s)
 
-	// (5) long attacks: gaps of minutes, total duration beyond 2^27 ms (≈37.3 h).  Oracle only —
-	// the model assumes a lossless store, which go-tsz is not beyond its 27-bit first delta.
+	// (5) regression probe: long attacks, gaps of minutes, total duration beyond 2^27 ms (≈37.3 h),
+	// so that a series begins later than go-tsz's 27-bit first delta reaches from the attack's
+	// start (misplaced before timeSeries.add created the store at the series' first point).
+	lp := &kit.Stream{Name: "c17.plot"}
 	for i := 0; i < c.N(6, 40); i++ {
 		n := 2300 + r.Pick(2000)
 		if n > 5000 {
@@ -1115,9 +1122,49 @@ func plotStreams(c *run.Ctx, s *kit.Summary, r *kit.Rng) {
 		pc := plotCase{Op: "plot", Threshold: 0, Results: shuffled(r, base, 1)}
 		o := implPlot(pc, true)
 		oraclePlot(s, pc, o, "VerifData")
+		if i%3 == 0 { // the model's sort is quadratic: a sample of these goes through the driver
+			lp.Add(fmt.Sprintf("c17.plot %d %s", pc.Threshold, resultsTokens(pc.Results)), o.line)
+		}
 		s.Case(plotCaseKey(pc), true)
 		s.Count("plot:long-attack")
 	}
+
+	// (6) regression probe: the store's "no point yet" sentinel.  A series whose first point lies
+	// at 0 ms (possibly several points at 0 ms) and whose next point comes ≥ 2^27-1 ms later was
+	// written through go-tsz's first-point path twice before stored time stamps were shifted by one.
+	for i := 0; i < c.N(12, 120); i++ {
+		ts := int64(1600000000e9) + r.Range(0, 1e18)
+		errFirst := r.Chance(0.5) // which series starts at 0 ms
+		zeros := 1 + r.Pick(3)    // points at 0 ms
+		jump := []int64{tszFirstLimit, tszFirstLimit - 1, tszFirstLimit + 1, 1 << 27, 1<<27 + r.Range(0, 1<<20), 1 << 28, 1<<30 + r.Range(0, 1<<30-2)}[r.Pick(7)]
+		var base []res
+		seq := uint64(0)
+		add := func(e bool) {
+			base = append(base, res{"sentinel", seq, ts, r.Range(1e5, 2e9), e})
+			seq++
+		}
+		for j := 0; j < zeros; j++ {
+			add(errFirst)
+			ts += r.Range(0, 999999/int64(zeros)) // stay inside the first millisecond
+		}
+		if r.Chance(0.5) {
+			ts += r.Range(0, 5e9)
+			add(!errFirst) // the other series starts a little later
+		}
+		ts += jump * 1e6
+		add(errFirst)
+		for j := 0; j < r.Pick(6); j++ {
+			ts += r.Range(0, 3e9)
+			add(r.Chance(0.5))
+		}
+		pc := plotCase{Op: "plot", Threshold: []int{0, 0, 3, 4000}[r.Pick(4)], Results: shuffled(r, base, r.Pick(4)), Probe: "sentinel_gap"}
+		o := implPlot(pc, true)
+		oraclePlot(s, pc, o, "VerifData")
+		lp.Add(fmt.Sprintf("c17.plot %d %s", pc.Threshold, resultsTokens(pc.Results)), o.line)
+		s.Case(plotCaseKey(pc), nontrivialPlot(pc))
+		s.Count("plot:sentinel-gap")
+	}
+	lp.Diff(c.Driver, s)
 }
 
 // ---------------------------------------------------------------------------
@@ -1339,8 +1386,7 @@ func replay(c *run.Ctx, s *kit.Summary) {
 		o := implPlot(pc, pc.Op != "adds")
 		oraclePlot(s, pc, o, "VerifData")
 		s.Case(plotCaseKey(pc), true)
-		late := strings.HasPrefix(rec.Kind, "plot_late_series_")
-		if !late {
+		{
 			st := &kit.Stream{Name: "c17." + map[string]string{"plot": "plot", "plotcmd": "plot", "adds": "adds"}[pc.Op]}
 			if pc.Op == "adds" {
 				st.Add("c17.adds "+resultsTokens(pc.Results), o.line)
